@@ -123,6 +123,9 @@ def ec_full(crv, i):
 def okp_jwk(crv, i, kind="hash"):
     n = rjwk.OKP_LEN[crv]
     raw = pattern(n, kind, i)
+    if kind == "hash":
+        # never the same octets as an oct key of the alphabet
+        raw = (hashlib.sha512(b"okp/%s/%d" % (crv.encode(), i)).digest() * 2)[:n]
     return rjwk.export(rjwk.OKP_PRIV[crv].from_private_bytes(raw), private=True)
 
 
@@ -135,7 +138,7 @@ def rsa_jwk(name="rsa_2048_a"):
     return rjwk.export(rsa_obj(name), private=True)
 
 
-RSA_NAMES = ["rsa_1024_a", "rsa_1536_a", "rsa_2048_a", "rsa_2048_b", "rsa_2048_e3", "rsa_3072_a", "rsa_4096_a"]
+RSA_NAMES = ["rsa_1024_a", "rsa_1025_a", "rsa_1536_a", "rsa_2041_a", "rsa_2047_a", "rsa_2048_a", "rsa_2048_b", "rsa_2048_e3", "rsa_3072_a", "rsa_4096_a"]
 EC_CURVES = ["P-256", "P-384", "P-521", "secp256k1"]
 OKP_SIG = ["Ed25519", "Ed448"]
 OKP_DH = ["X25519", "X448"]
